@@ -163,6 +163,12 @@ func c03One(c *vh.Ctx, cs c03Case, bound int) {
 				fmt.Sprintf("Match(%s, %s, %s) gives %s under the sorted map order (choices %v) and %s under iteration choices %v", jgen.J(cs.P), jgen.J(cs.M), jgen.J(cs.B), first, firstChoices, o, choices), cs2)
 		}
 	})
+	if vexplore.Diverged != "" {
+		// the explorer replays the very same call on the very same objects: a different sequence of map
+		// iterations means Match's behaviour depends on what it did before
+		c.Violation("C03/evaluation-depends-on-earlier-calls/"+shape(cs.P), fmt.Sprintf("Match(%s, %s, %s) evaluated again on the same arguments iterated its maps differently (%s): its behaviour depends on earlier calls", jgen.J(cs.P), jgen.J(cs.M), jgen.J(cs.B), vexplore.Diverged), cs)
+	}
+	c03History(c, cs)
 	if runs > 1 {
 		c.Nontrivial()
 		c.R.States++
@@ -172,6 +178,40 @@ func c03One(c *vh.Ctx, cs c03Case, bound int) {
 	}
 	if c.WantSample() && runs > 6 {
 		c.Sample(map[string]interface{}{"case": cs, "orders_explored": runs})
+	}
+}
+
+// c03History: Match must be a function of the *values* it is given, not of what it has seen before
+// at the same addresses: a pattern map that has been matched, then edited in place by its owner
+// (one key renamed to another key of the message, same size), must match exactly like a freshly
+// built equal map.
+func c03History(c *vh.Ctx, cs c03Case) {
+	pm, ok := cs.pattern().(map[string]interface{})
+	mm, ok2 := cs.M.(map[string]interface{})
+	if !ok || !ok2 || len(pm) == 0 || cs.BadAt != "" {
+		return
+	}
+	b := match.Bindings(copyB(cs.B))
+	for _, k := range sortedKeys(pm) {
+		for _, k2 := range sortedKeys(mm) {
+			if _, have := pm[k2]; have {
+				continue
+			}
+			used := jgen.Clone(pm).(map[string]interface{})
+			match.Match(used, jgen.Clone(cs.M), b) // the map is matched once ...
+			used[k2] = used[k]                     // ... then edited in place, keeping its size
+			delete(used, k)
+			fresh := jgen.Clone(used)
+			r1, e1 := match.Match(used, jgen.Clone(cs.M), b)
+			r2, e2 := match.Match(fresh, jgen.Clone(cs.M), b)
+			c.Count("history_evaluations", 1)
+			if outcomeOf(r1, e1) != outcomeOf(r2, e2) {
+				c.Violation("C03/result-depends-on-earlier-calls/"+shape(cs.P),
+					fmt.Sprintf("pattern %s was matched, then its key %q was renamed to %q in place; matching it again against %s gives %s, but a freshly built equal pattern %s gives %s",
+						jgen.J(cs.P), k, k2, jgen.J(cs.M), outcomeOf(r1, e1), jgen.J(fresh), outcomeOf(r2, e2)), cs)
+				return
+			}
+		}
 	}
 }
 
@@ -217,7 +257,7 @@ func C03(c *vh.Ctx) {
 	c.Bound("pattern_nodes_max", pmax)
 	c.Bound("message_nodes_max", mmax)
 	c.Bound("deviating_range_executions_max", bound)
-	c.Rule("the C01 triple space at the stated size, plus patterns that use one variable at several places against structured values and patterns that are invalid at one key and merely non-matching at another; for every triple every combination of map-iteration orders with at most k deviating range executions (every `range` over a map in package match is routed through vrange.Keys; all n! orders for n<=4) - the canonical result multiset and the success/error outcome must be the same in all of them; deep snapshots of pattern, message and bindings before/after; returned maps must be distinct objects, independent of the given bindings and of each other. Race pass (separate -race binary): the same argument objects matched from 3 goroutines with no synchronisation, results equal to the sequential one, ThreadSanitizer silent. states = triples with more than one order, transitions = executions; non-trivial = more than one order explored.")
+	c.Rule("the C01 triple space at the stated size, plus patterns that use one variable at several places against structured values and patterns that are invalid at one key and merely non-matching at another; for every triple every combination of map-iteration orders with at most k deviating range executions (every `range` over a map in package match is routed through vrange.Keys; all n! orders for n<=4) - the canonical result multiset and the success/error outcome must be the same in all of them; deep snapshots of pattern, message and bindings before/after; returned maps must be distinct objects, independent of the given bindings and of each other; a pattern map that was matched and then edited in place (same size) must match like a freshly built equal map. Race pass (separate -race binary): the same argument objects matched from 3 goroutines with no synchronisation, results equal to the sequential one, ThreadSanitizer silent. states = triples with more than one order, transitions = executions; non-trivial = more than one order explored.")
 	var all []c03Case
 	for _, p := range ps.UpTo(pmax) {
 		bs := bindingsFor(p)
